@@ -42,6 +42,40 @@ def module(name):
     if name not in _modules: _modules[name] = Module(name)
     return _modules[name]
 
+
+_MUTATORS = {"append", "add", "update", "setdefault", "pop", "popitem", "clear", "extend", "insert", "remove", "discard", "sort", "reverse", "__setitem__"}
+
+def shared_mutable_names(mod):
+    """names of module-level / class-level containers (dict / list / set built by a display or dict() / list() / set()) that some code of
+    the module mutates in place or rebinds through `global`: their content at a call depends on the history of earlier calls, which a
+    per-call contract cannot see. The engine refuses to read them (undecided) instead of pretending they are still as initialised."""
+    cached = getattr(mod, "_shared_mutable", None)
+    if cached is not None: return cached
+    def is_container(v):
+        return isinstance(v, (ast.Dict, ast.List, ast.Set, ast.DictComp, ast.ListComp, ast.SetComp)) or (isinstance(v, ast.Call) and isinstance(v.func, ast.Name) and v.func.id in ("dict", "list", "set", "defaultdict", "OrderedDict"))
+    cand = {n for n, v in mod.constants.items() if is_container(v)}
+    for k in mod.classes.values():
+        cand |= {n for n, v in k.attrs.items() if is_container(v)}
+    hit = set()
+    def leaf(e):
+        if isinstance(e, ast.Attribute): return e.attr
+        if isinstance(e, ast.Name): return e.id
+        return None
+    for n in ast.walk(mod.tree):
+        if isinstance(n, ast.Global): hit |= set(n.names) & set(mod.constants)
+        tg = []
+        if isinstance(n, ast.Assign): tg = n.targets
+        elif isinstance(n, (ast.AugAssign, ast.AnnAssign)): tg = [n.target]
+        elif isinstance(n, ast.Delete): tg = n.targets
+        for t in tg:
+            for sub in ast.walk(t):
+                if isinstance(sub, ast.Subscript) and leaf(sub.value) in cand: hit.add(leaf(sub.value))
+        if isinstance(n, ast.Call) and isinstance(n.func, ast.Attribute) and n.func.attr in _MUTATORS and leaf(n.func.value) in cand:
+            hit.add(leaf(n.func.value))
+    # a function-local variable of the same name is not the shared container; keep only names that are never bound as plain locals
+    mod._shared_mutable = hit
+    return hit
+
 def find_class(name, hint_module=None):
     mods = [hint_module] if hint_module else []
     mods += ["errors", "ranges", "fields", "checks", "data", "interface", "validio", "rowio", "applications", "sql", "_tools", "_compat"]
